@@ -90,7 +90,28 @@ def _hid_string(data):
     return '"' + ''.join('\\x%02x' % b for b in data) + '"'
 
 
-def record_compiled(datas):
+def _hid_raw_string(data):
+    """the literal spelled with the characters themselves wherever the language allows it (printable ASCII except quote
+    and backslash, TAB, well-formed UTF-8), \\xHH otherwise: what the bytes are is known here, independently of the lexer"""
+    try:
+        text = data.decode('utf-8')
+    except UnicodeDecodeError:
+        return _hid_string(data)
+    out = []
+    for ch in text:
+        o = ord(ch)
+        if ch in '"\\' or (o < 32 and ch != '\t') or o == 127:
+            out.append(''.join('\\x%02x' % b for b in ch.encode('utf-8')))
+        else:
+            out.append(ch)
+    return '"' + ''.join(out) + '"'
+
+
+RAW_DATAS = [b'\t', b'a\tb', b'\t\t', b' \t ', b'tab\tafter\ttwo', 'é'.encode(), '世界'.encode(), 'a é\t世 z'.encode(), b' ', b'~!#$%&()*+,-./:;<=>?@[]^_`{|}', b"it's", b'0123456789',
+             '\U0001F30E'.encode(), 'x\u00a0y'.encode(), 'x\u2028y'.encode()]
+
+
+def record_compiled(datas, render=None):
     """end to end: a program printing each string (written with \\xHH escapes), `.ascii` lines paired by order
     of first use"""
     from . import hidc_api
@@ -101,7 +122,7 @@ def record_compiled(datas):
             uniq.append(d)
     for i in range(0, len(uniq), 40):
         part = uniq[i:i + 40]
-        src = 'empty @is_you() {\n' + ''.join('    write(%s);\n' % _hid_string(d) for d in part) + '}\n'
+        src = 'empty @is_you() {\n' + ''.join('    write(%s);\n' % (render or _hid_string)(d) for d in part) + '}\n'
         try:
             lines = hidc_api.compile_src(src)
         except (hidc_api.Rejected, hidc_api.Crashed) as e:
@@ -131,6 +152,8 @@ def record_pairs(tier='quick', seed=0):
     datas = [b''] + singles + pairs2 + rnd
     out = record_direct(datas)
     out += record_compiled(singles + pairs2 + rnd[:60 if tier == 'quick' else 400])
+    # the same route with the characters written raw in the source: tabs, wide characters, punctuation
+    out += record_compiled(RAW_DATAS + [bytes([b]) for b in range(32, 127)], render=_hid_raw_string)
     return out
 
 
